@@ -459,6 +459,20 @@ func (r *foRun) exec(b []foStepJ) {
 			// Every third time a builder is entered: the caller's context is cancelled while the builder is still
 			// running.  A synchronous build goes on under the cancelled context and its result counts like any other;
 			// a background build does not even see it (detached context).
+			// Every fourth time a call starts waiting for another call's build: its own context is cancelled while it
+			// waits.  What it gets is still what the owner publishes (a value or an error of a builder or the backend).
+			if l.Pca == "wait" && (int(r.seed)+i)%4 == 0 {
+				r.s.mu.Lock()
+				c := r.cancels[f.P]
+				r.s.mu.Unlock()
+
+				if c != nil {
+					c()
+					r.s.rec(Event{Ev: "waitcancel", P: f.P})
+					synctest.Wait()
+				}
+			}
+
 			if a != nil && a.kind == "bend" && f.Name != "BEnd" && (int(r.seed)+i)%3 == 0 {
 				r.s.mu.Lock()
 				c := r.cancels[f.P]
